@@ -1,4 +1,5 @@
 import Spine.CmdNat
+import Spine.CmdThm
 /-!
 # C18, part 2 — the nine command shapes, for every registered function
 
@@ -33,6 +34,25 @@ theorem c18_roundtrip_cmd {α : Type} (a : Args α) :
 example : ∀ sh ∈ Shape.all, ∃ f ∈ functions, applicable f sh = true ∧ tagBad f sh = false := by
   decide +kernel
 
+/-- EVERY CALL, not only the listed shapes: `ReadCmdType`, `ReplyCmdType` and `NotifyOrWriteCmdType` can be
+    called with each selectors / elements argument given or nil — 22 presence patterns (`Call`). Each builds
+    what one of the 15 shapes builds (`buildCall_eq_shape`; with `partialWithoutSelector` the other
+    arguments are ignored, `notifyOrWriteCmd_pws`), so for EVERY call and every choice of values the
+    command built, encoded and decoded is recognised as what the shape of the call demands. -/
+theorem c18_roundtrip_every_call {α : Type} (a : Args α) :
+    ∀ f ∈ functions, ∀ c : Call, applicable f c.shape = true → tagBad f c.shape = false →
+      roundtripCall clean f c a = .ok (some (expected f c.shape a)) := by
+  intro f hf c ha hb
+  rw [roundtripCall_eq_shape]
+  exact c18_roundtrip_cmd a f hf c.shape c.shape_mem_all ha hb
+
+/-- non-vacuity: all 22 calls are covered, 15 of them ignore no argument and reach 15 distinct shapes,
+    and a call with all three of delete selector, partial selector and delete elements is among them -/
+example : Call.all.length = 22 ∧ (Call.all.filter fun c => !c.ignoresArgs).length = 15 ∧
+    ((Call.all.filter fun c => !c.ignoresArgs).map Call.shape).eraseDups.length = 15 ∧
+    (∃ f ∈ functions, applicable f (Call.now true true false true).shape = true ∧
+      tagBad f (Call.now true true false true).shape = false) := by decide +kernel
+
 /-- PARTIAL (member as written): the same for the shapes that carry no delete filter. -/
 theorem c18_roundtrip_cmd_partial {α : Type} (a : Args α) :
     ∀ f ∈ functions, ∀ sh ∈ Shape.all, sh.usesDelete = false → applicable f sh = true → tagBad f sh = false →
@@ -40,21 +60,6 @@ theorem c18_roundtrip_cmd_partial {α : Type} (a : Args α) :
   intro f hf sh hsh hd ha hb
   rw [roundtrip_cfg_indep f sh a hd]
   exact c18_roundtrip_cmd a f hf sh hsh ha hb
-
-theorem c18_delete_refuted_tok :
-    ∀ f ∈ functions, ∀ sh ∈ Shape.all, sh.usesDelete = true → applicable f sh = true → tagBad f sh = false →
-      roundtrip asWritten f sh tok = .error .deleteByRef := by decide +kernel
-
-/-- REFUTED on the code as written (`notify-delete-filter-panics`): for every registered function, every
-    shape with a delete selector or delete elements panics in `reflect.Value.Convert`, whatever the values,
-    because `filtersForSelectorsElements` passes the address of its `any` parameter. -/
-theorem c18_delete_refuted {α : Type} (a : Args α) :
-    ∀ f ∈ functions, ∀ sh ∈ Shape.all, sh.usesDelete = true → applicable f sh = true → tagBad f sh = false →
-      roundtrip asWritten f sh a = .error .deleteByRef :=
-  fun f hf sh hsh hd ha hb =>
-    roundtrip_error_of_tok asWritten f sh .deleteByRef (c18_delete_refuted_tok f hf sh hsh hd ha hb) a
-
-example : ∃ f ∈ functions, applicable f .delSel = true ∧ tagBad f .delSel = false := by decide +kernel
 
 /-- Absent selectors / elements may reach the builders as the untyped nil or as a nil pointer of their
     concrete type: the command built is the same (the model of `util.IsNil`; the harness passes both
@@ -67,25 +72,5 @@ theorem c18_builder_nil_forms_agree {α : Type} (cfg : Cfg) (fn : FnRow) (x : α
 example : (ArgForm.typedNil 7 : ArgForm Nat).forget = .untypedNil ∧
     readCmdAny clean ⟨"f", 1, "T", 2, false⟩ (0 : Nat) (.typedNil 7) .untypedNil =
       readCmdAny clean ⟨"f", 1, "T", 2, false⟩ 0 .untypedNil .untypedNil := ⟨rfl, rfl⟩
-
-/-- REFUTED on every row of `tagFailing` (`tag:<field>`): what is recognised after the round trip is not
-    what was put in — the selectors resp. elements are silently dropped (no field carries the function's
-    tag), or the builder panics (the tag sits on a field of another type). -/
-theorem c18_roundtrip_cmd_refuted :
-    ∀ f ∈ functions, ∀ sh ∈ Shape.all, applicable f sh = true → tagBad f sh = true →
-      roundtrip clean f sh tok ≠ .ok (some (expected f sh tok)) := by decide +kernel
-
-/-- … and where nothing panics the command is still recognised as the function with its payload: only
-    the filter content is lost (this is why no test notices). -/
-def silentlyDropped (f : FnRow) (sh : Shape) : Bool :=
-  match roundtrip clean f sh tok with
-  | .ok (some r) => r.function == some f.key && r.payloadTy == f.payloadKey &&
-      r.payload == (expected f sh tok).payload
-  | .ok none => false
-  | .error _ => true
-
-theorem c18_failing_rows_keep_function :
-    ∀ f ∈ functions, ∀ sh ∈ Shape.all, applicable f sh = true → tagBad f sh = true →
-      silentlyDropped f sh = true := by decide +kernel
 
 end Spine.Props.C18
